@@ -24,7 +24,8 @@ type evaluator struct {
 	st    *pstate // nil in flow-insensitive mode
 	busy  map[*types.Var]bool
 	depth int
-	quiet bool // evaluate without emitting events
+	quiet bool   // evaluate without emitting events
+	sc    []Fact // facts implied by short-circuit evaluation at the current point
 }
 
 func (p *Prog) fiEval(f *Func) *evaluator {
@@ -112,6 +113,15 @@ func (e *evaluator) eval1(x ast.Expr) *Term {
 	case *ast.CallExpr:
 		return e.evalCall(x)
 	case *ast.BinaryExpr:
+		if (x.Op == token.LOR || x.Op == token.LAND) && e.st != nil {
+			// short circuit: the right operand is evaluated under the left operand's outcome
+			l := e.eval(x.X)
+			n := len(e.sc)
+			e.sc = append(e.sc, condFacts(boolSimplify(l), x.Op == token.LAND)...)
+			r := e.eval(x.Y)
+			e.sc = e.sc[:n]
+			return mk(x.Op.String(), l, r)
+		}
 		return mk(x.Op.String(), e.eval(x.X), e.eval(x.Y))
 	case *ast.UnaryExpr:
 		if x.Op == token.AND {
@@ -127,7 +137,9 @@ func (e *evaluator) eval1(x ast.Expr) *Term {
 		}
 		return mk("deref", in)
 	case *ast.IndexExpr:
-		return mk("idx", e.eval(x.X), e.eval(x.Index))
+		t := mk("idx", e.eval(x.X), e.eval(x.Index))
+		e.emitIndex(x, x.X, t)
+		return t
 	case *ast.SliceExpr:
 		lo, hi := atom("_"), atom("_")
 		if x.Low != nil {
@@ -136,7 +148,9 @@ func (e *evaluator) eval1(x ast.Expr) *Term {
 		if x.High != nil {
 			hi = e.eval(x.High)
 		}
-		return mk("slice", e.eval(x.X), lo, hi)
+		t := mk("slice", e.eval(x.X), lo, hi)
+		e.emitIndex(x, x.X, t)
+		return t
 	case *ast.CompositeLit:
 		T := e.typeOf(x)
 		t := &Term{Op: "lit", A: []*Term{atom(typeName(T))}}
@@ -594,4 +608,27 @@ func writesThroughPointer(ci *callInfo) bool {
 	return strings.Contains(n, "Unmarshal") || strings.Contains(n, "Decode") ||
 		strings.HasSuffix(n, "Subspace.Get") || strings.HasSuffix(n, "Subspace.GetParamSet") ||
 		strings.HasSuffix(n, "Subspace.GetIfExists") || n == "dyn"
+}
+
+// emitIndex records a bounds-checked access (not map lookups) on the current path.
+func (e *evaluator) emitIndex(node ast.Expr, operand ast.Expr, t *Term) {
+	if e.st == nil || e.quiet {
+		return
+	}
+	T := e.typeOf(operand)
+	if T == nil {
+		return
+	}
+	switch u := types.Unalias(T).Underlying().(type) {
+	case *types.Map:
+		return
+	case *types.Pointer:
+		if _, ok := u.Elem().Underlying().(*types.Array); !ok {
+			return
+		}
+	case *types.Slice, *types.Array, *types.Basic:
+	default:
+		return
+	}
+	e.st.emit(&Event{Kind: EvIndex, Node: node, Pos: node.Pos(), Val: t, Local: append([]Fact(nil), e.sc...)})
 }
